@@ -70,6 +70,17 @@ def candidates (screen : List Plate) (ids : List Nat) : List Plate :=
 def eligibleOf (k : Nat) (screen : List Plate) (ids : List Nat) : Except Err (List Plate) :=
   filterEligible k (batchPlates screen ids) (candidates screen ids)
 
+/-! ### rounds -/
+
+/-- `Screen.set_observed` applied to the rows of the plates of a finished batch: those plates become observed, nothing else
+    changes (ids, samples, order of `screen.plates`). -/
+def markObserved (screen : List Plate) (ids : List Nat) : List Plate :=
+  screen.map (fun p => if ids.contains p.id then { p with observed := true } else p)
+
+/-- the screen after the finished batches `done` (oldest first) were reported -/
+def afterRounds (screen : List Plate) (done : List (List Nat)) : List Plate :=
+  done.foldl markObserved screen
+
 /-! ### selection histories -/
 
 /-- One selection within a batch: some eligible plate (whichever scores best -- any of them may)
